@@ -1067,11 +1067,9 @@ func (s *Store[K, V]) processSecondary() {
 			}
 			item.shard.mu.RUnlock(tk)
 			if err != nil {
+				// report the error, the evicted entry is still removed from the
+				// map below, otherwise it stays in memory forever untracked
 				s.secondaryCache.HandleAsyncError(err)
-				if verifOn {
-					verifAt(VpSecDone, s, item.entry, nil, 0)
-				}
-				continue
 			}
 			if item.reason == EVICTED {
 				item.shard.mu.Lock()
